@@ -266,7 +266,7 @@ class CheckInitial(CheckBase):
         return {"C09|rejected-only-without-exactly-one-initial-state": NINIT(a.cls.e, cls_states(s0, a.cls.e)[1]) != 1}
 
     def _inv(self, s0, s, a, l):
-        acc = getattr(l, "__acc0").e
+        acc = l.acc.e
         return {"C09|count": z3.And(s.sel("list.len", acc) == NINIT(a.cls.e, l.i), acc >= s0["ghost.alloc"]),
                 "C09|a-positive-count-has-a-witness": z3.Implies(s.sel("list.len", acc) > 0, self._some_initial(s0, a, l.i))}
 
@@ -302,7 +302,7 @@ class CheckFinal(CheckBase):
             k >= 0, k < n, final(s0, z3.Select(arr, k)), has_out(s0, z3.Select(arr, k))))}
 
     def _inv(self, s0, s, a, l):
-        acc = getattr(l, "__acc0").e
+        acc = l.acc.e
         return {"C09|nonempty-iff-found": z3.And(
             (s.sel("list.len", acc) > 0) == self._bad(s0, a, l.i), s.sel("list.len", acc) >= 0, acc >= s0["ghost.alloc"])}
 
@@ -335,7 +335,7 @@ class CheckTrap(CheckBase):
         return {"C09|trap:strict-raises": z3.And(self._trap(s0, a), strict)}
 
     def _inv(self, s0, s, a, l):
-        acc = getattr(l, "__acc0").e
+        acc = l.acc.e
         return {"C09|nonempty-iff-found": z3.And(
             (s.sel("list.len", acc) > 0) == self._trap(s0, a, l.i), s.sel("list.len", acc) >= 0, acc >= s0["ghost.alloc"]),
             "no-warning-yet": s.g("nwarn") == s0.g("nwarn")}
@@ -373,7 +373,7 @@ class StatesWithoutPath(CheckBase):
                 "fresh": z3.And(r.e >= s0["ghost.alloc"], s.sel("list.len", r) >= 0), "no-warning": s.g("nwarn") == s0.g("nwarn")}
 
     def _inv(self, s0, s, a, l):
-        acc = getattr(l, "__acc0").e
+        acc = l.acc.e
         return {"C09|nonempty-iff-found": z3.And(
             (s.sel("list.len", acc) > 0) == stuck(s0, a, l.i), s.sel("list.len", acc) >= 0, acc >= s0["ghost.alloc"]),
             "no-warning": s.g("nwarn") == s0.g("nwarn")}
